@@ -54,6 +54,26 @@ CHECKS = {
          "exhaustive enumeration of the configuration product (chunk size, range length 1..3m, peers, per-peer availability vectors, one benign fault x faulty peer) with real ExchangeServers and the real Exchange over mocknet",
          "m in {1,2,3,5,64}, L=1..3m (64: {1,63,64,65,128,150}), 1-3 (thorough 4) honest peers with availability in {empty, up to from, half, full}^P (>=1 full), faults {none, slow beyond RequestTimeout, disconnect after first answer, store grows}; result must be exactly from+1..to-1 ascending with nil error before the caller's deadline; plus Head/Get/GetByHeight byte-exact round trips.",
          "At most one benign fault per run; servers use a simple honest in-memory store.", "2.4 C18"),
+ "C03": ("E1-syncx", "model_checking",
+         "explicit-state BFS over environment event histories (gossip deliveries, Head() calls, held getter answers, clock advances) on the real Syncer + real Store, oracle in every state",
+         "Event alphabet: deliver {next, skip 2/3, duplicate, stale, forged adjacent, forged far (bifurcation), bad link, wrong chain, future-dated}, Head(), answer of the held getter call {full, prefix, error}, advance {40s, 2h}; depth 4 quick / 6 thorough over trust ranges {unlimited, 2, (1)} and batch sizes; in every state: every stored header (datastore scan + pending) is the verified chain's header, the store is one run Tail..Head, every invalid delivery returned an error, no unverified header is pending / the sync target / the origin of a range request.",
+         "Event granularity (bubble quiescence between events); while a delivery is parked in bifurcation no second delivery is issued (sync.Mutex blocking is invisible to synctest); zero headers are not delivered (the Subscriber never produces them).", "2.3 C03"),
+ "C07": ("E1-syncx", "model_checking",
+         "explicit-state BFS over event histories with an honest held getter on the real Syncer + Store; quiescent-state oracle plus a recovery probe from every quiescent state",
+         "Events: deliver honest {next, skip 2, skip 3}, Head(), answer {full, prefix of 1, error}, advance 40s; depth 5 quick / 7 thorough. At every quiescent state: store head == highest verified head, State finished without error and SyncWait returns, unless a getter error aborted the attempt; and from every quiescent state one more valid head plus honest answers must complete the sync (so a lost trigger or wedged loop is a state, not a timeout).",
+         "Event granularity; liveness is evaluated at bubble quiescence in virtual time.", "2.3 C07"),
+ "C15": ("E1-syncx", "model_checking",
+         "exhaustive enumeration of (distance, trust range, candidate kind, failing fetch position) on the real gossip verifier with a real store",
+         "Subjective head in {1,5}, distance 2..12 (thorough 24), trust range 1..d and unlimited, honest or forged candidate, and for each the failure of every single intermediate fetch the fault-free run performs; accept iff honest and no needed fetch failed, refusal leaves the candidate neither pending nor stored, only chain headers are promoted, fetch count bounded by d*(floor(log2 d)+1).",
+         "Getter honest apart from injected fetch errors.", "2.3 C15"),
+ "C16": ("E1-syncx", "model_checking",
+         "exhaustive enumeration of the Validate-accepted parameter product x chain shapes x stores x reconfiguration pairs through the Syncer's public API",
+         "PruningWindow {0,w/2,w,3w} x SyncFromHeight {0,1,3,6,h0,N,N+3} x SyncFromHash {none, below tail, mid, head, unknown} x blockTime {unset,b,10b} x trustingPeriod {small, large} x chain shapes {uniform, fast, slow, halted mid/tip, young, bursty} x stores {empty, [1..h0], [4..h0]} and all ordered pairs (thorough: triples) of 9 parameter sets as reconfigurations; oracle: no panic, Start/Head return and fail only for a non-existent tail, store stays one gap-free chain with 1<=Tail<=Head, nothing inside the window is pruned when spacing <= blockTime, getter never asked for heights outside the chain.",
+         "Open finding F13 reported as KNOWN-FINDING.", "2.3 C16"),
+ "C19": ("E1-syncx", "model_checking",
+         "explicit-state BFS over histories of Head() calls, clock advances, deliveries and held trusted-head answers on the real Syncer, per-call and per-state oracle",
+         "Stores {empty, fresh, stale, expired head (peers fresh / peers expired)}; events Head(), deliver next, advance {3s, 40s, 4000s}, answers of the held trusted-head request {newer, same, error, soft+header} and of the initialisation request {fresh tip, old, error}; depth 5 quick / 7 thorough. Per completed Head(): no request when recent, exactly one request carrying the subjective head when stale, re-initialisation only adopts non-expired heads; per state: at most one head request in flight (single flight) and results never decrease in completion order.",
+         "Overlapping Head() callers are explored at event granularity (a second call while the first one's request is held).", "2.3 C19"),
 }
 
 NOT_APPLICABLE = {}
@@ -102,6 +122,7 @@ def main():
             {"name": "E0-bubble", "path": "harness/vk/bubble.go", "serves_properties": props, "kind_free_text": "testing/synctest bubble: virtual time, exact quiescence, leak/deadlock detection"},
             {"name": "E1-inputs", "path": "harness/pure", "serves_properties": ["C01", "C02"], "kind_free_text": "exhaustive input-product enumeration on the real functions vs reference oracle"},
             {"name": "E1-netx", "path": "harness/p2px", "serves_properties": ["C05", "C09", "C10", "C11", "C13", "C18"], "kind_free_text": "real Exchange/ExchangeServer/Subscriber over libp2p mocknet inside a synctest bubble; scripted peers keyed by (origin, attempt), release gates for arrival order, deadline-honouring stream decorator"},
+            {"name": "E1-syncx", "path": "harness/syncx", "serves_properties": ["C03", "C07", "C15", "C16", "C19"], "kind_free_text": "real sync.Syncer + real store.Store in a synctest bubble with a scripted contract-abiding getter (calls held until answered), capturing subscriber and virtual clock; BFS over event histories"},
             {"name": "E1-seqx", "path": "harness/vk/bfs.go + harness/storex", "serves_properties": ["C04", "C06", "C08", "C14"], "kind_free_text": "explicit-state BFS over operation histories on the real store (fresh instance + replay per successor, canonical state key), LogDS commit-log/fault-injecting datastore"},
         ],
         "checks": checks,
